@@ -156,10 +156,11 @@ func (f *Function) Eval(s *Scope, depth int) (result Object) {
 			f.Args[i] = arg
 		}
 		v := s.Eval(arg, d2)
-		if _, ok := v.(*ReturnResult); ok {
-			// A return-from in an argument leaves the call as well, the
-			// function is not called and the remaining arguments are not
-			// evaluated.
+		switch v.(type) {
+		case *ReturnResult, *GoTo:
+			// A return-from or go in an argument leaves the call as well,
+			// the function is not called and the remaining arguments are
+			// not evaluated.
 			return v
 		}
 		if vs, ok := v.(Values); ok && !skip {
